@@ -101,6 +101,7 @@ def build_system(case, knobs=None, channels=None, events=None, disable_stock_eve
     kwargs, post = split_knobs(knobs or {}, channels or {}, rc_dir)
     kwargs.update(extra or {})
     path = case if os.path.isabs(case) else case_path(case)
+    kwargs.setdefault('autogen_stale', False)    # the shared generated-code store is never rewritten by a run
     ss = andes.load(path, setup=False, no_output=no_output, **kwargs)
     if ss is None:
         raise HarnessError('case %s failed to load' % case)
